@@ -626,3 +626,27 @@ Print Assumptions C19_resources_nonvacuous.
 (* OPEN: C19_resources_cut_listing : on a section that is NOT a tree within the limits (dangling references, a walk cut by the
    budget or by the depth limit) the member equals a declarative function of the listing Resources.walk produces (which
    entries survive the cut) - only the model and C19_resources_bounded speak about such sections *)
+
+(* ---- Serialize for Directory / DirectoryEntry (fourth audit, M7): the public impls that start a walk of their own - a
+   fresh budget of length / 8, depth 0, type ids never renamed.  For ANY section and offset they return a value within the
+   two bounds; a directory that denotes a tree within the limits is serialized as the declarative value of that tree with
+   no renaming on any level.  (The harness compares both texts with these model functions on every accepted image.) *)
+From PV.Proofs Require WrapJsonDirProofs.
+Theorem C19_directory_serialize_total : forall (s : Resources.rsec) off,
+  (exists j, WrapJsonRes.json_directory s off = Ok j) /\ (exists j, WrapJsonRes.json_dir_entry s off = Ok j).
+Proof. exact WrapJsonDirProofs.directory_serialize_total. Qed.
+Print Assumptions C19_directory_serialize_total.
+
+Theorem C19_directory_serialize_bounded : forall (s : Resources.rsec) off j,
+  WrapJsonRes.json_directory s off = Ok j ->
+  WrapResSpec.jentries j <= Resources.rs_len s / 8 /\ (WrapResSpec.jdepth j <= Resources.FSCK_DEPTH)%nat.
+Proof. exact WrapJsonDirProofs.json_directory_bounded. Qed.
+Print Assumptions C19_directory_serialize_bounded.
+
+Theorem C19_directory_serialize_mirror_tree : forall (s : Resources.rsec) off kids,
+  ResTree.repr s (ResTree.RDir off kids) = true ->
+  (ResTree.height (ResTree.RDir off kids) <= Resources.FSCK_DEPTH)%nat ->
+  ResTree.size (ResTree.RDir off kids) <= Resources.rs_len s / 8 ->
+  WrapJsonRes.json_directory s off = Ok (WrapResSpec.tree_json (Resources.rs_va s) false (ResTree.RDir off kids)).
+Proof. exact WrapJsonDirProofs.json_directory_repr. Qed.
+Print Assumptions C19_directory_serialize_mirror_tree.
